@@ -11,7 +11,7 @@ RULE = ('cases = generated DSG spec (incl. zero selection choices, forced single
         'reference architecture (R-SEL/R-CONN), every reference architecture is the decode of some vector, a corrected '
         'vector decodes to itself, and the reachable set equals the COMPLETE encoder\'s when that one can be built; '
         'non-trivial = >= 1 vector corrected and >= 2 reference architectures; distinct by sha1(spec)')
-BUDGET = {'quick': 100, 'thorough': 2500}
+BUDGET = {'quick': 150, 'thorough': 3000}
 
 
 @st.composite
